@@ -391,8 +391,13 @@ func eval(c Case, sp *specs.Spec, dir string) hx.Result {
 			}
 		}
 	encodings:
-		for _, name := range []string{"spec.json", "spec.yaml", "spec"} {
-			enc := map[string]string{"spec.json": "json", "spec.yaml": "yaml", "spec": "yaml"}[name]
+		// names: both extensions, none (YAML by default), and a hidden file name (a Spec file all the same)
+		for _, name := range []string{"spec.json", "spec.yaml", "spec", ".hidden-spec.json"} {
+			enc := map[string]string{"spec.json": "json", "spec.yaml": "yaml", "spec": "yaml", ".hidden-spec.json": "json"}[name]
+			lab := enc
+			if strings.HasPrefix(name, ".") {
+				lab = enc + "-under-a-hidden-name"
+			}
 			if c.Kind == "overwrite" {
 				// what is found under the name before the write: an earlier Spec written the same way, or foreign content
 				if prevSpec != nil {
@@ -420,19 +425,19 @@ func eval(c Case, sp *specs.Spec, dir string) hx.Result {
 			back, err := cdi.ReadSpec(path, 0)
 			if err != nil {
 				_ = os.Remove(path)
-				note(fail(enc, "unreadable", "written file cannot be read back: "+firstLine(err.Error()), err.Error()))
+				note(fail(lab, "unreadable", "written file cannot be read back: "+firstLine(err.Error()), err.Error()))
 				continue encodings
 			}
 			got := normImage(back.Spec)
 			if got != want {
 				_ = os.Remove(path)
-				note(fail(enc, "altered", "file reads back as a different Spec", json.RawMessage(got)))
+				note(fail(lab, "altered", "file reads back as a different Spec", json.RawMessage(got)))
 				continue encodings
 			}
 			// through the cache
 			if err := cache.Refresh(); err != nil {
 				_ = os.Remove(path)
-				note(fail(enc, "cache-load-error", "cache refresh reports "+firstLine(err.Error()), nil))
+				note(fail(lab, "cache-load-error", "cache refresh reports "+firstLine(err.Error()), nil))
 				continue encodings
 			}
 			for i, d := range sp.Devices {
@@ -440,7 +445,7 @@ func eval(c Case, sp *specs.Spec, dir string) hx.Result {
 				cd := cache.GetDevice(q)
 				if cd == nil {
 					_ = os.Remove(path)
-					note(fail(enc, "cache-device-missing", "device "+q+" not in the cache after loading the written file", nil))
+					note(fail(lab, "cache-device-missing", "device "+q+" not in the cache after loading the written file", nil))
 					continue encodings
 				}
 				var wd, gd any
@@ -448,7 +453,7 @@ func eval(c Case, sp *specs.Spec, dir string) hx.Result {
 				_ = json.Unmarshal([]byte(image(cd.Device)), &gd)
 				if image(prune(wd)) != image(prune(gd)) {
 					_ = os.Remove(path)
-					note(fail(enc, "cache-device-differs", "device "+q+" differs when loaded through the cache", json.RawMessage(image(cd.Device))))
+					note(fail(lab, "cache-device-differs", "device "+q+" differs when loaded through the cache", json.RawMessage(image(cd.Device))))
 					continue encodings
 				}
 			}
